@@ -106,7 +106,7 @@ def one_doc(args):
         missing = [w for w, _ in exp if w not in dict(got)]
         return seed, lang, f"words differ: missing {missing[:5]}, order/duplicates otherwise", text, len(exp)
     for (w, a), (_, b) in zip(exp, got):
-        if a != b:
+        if g.canon(a) != g.canon(b):
             return seed, lang, f"word {w}: expected ancestors {a}, parsed {b}", text, len(exp)
     return seed, lang, None, text, len(exp)
 
